@@ -51,6 +51,29 @@ theorem finish_plain (c : Cfg) (ar aq : Nat) (s : S) (b : Base c ar aq s) (hrun 
       simp only [Bool.false_eq_true, if_false, finishOf]
       exact hadv hur (by simpa using hd)
 
+/-- the end of a phase whose body left a local reply (and no upstream reset is pending) -/
+theorem finish_direct (c : Cfg) (ar aq : Nat) (s : S) (b : Base c ar aq s) (hrun : s.running = true) (hcl : s.cleaned = false)
+    (h3 : K3 s) (h6 : K6 s) (hpd : s.procDone = false) (hsr : s.setupRetry = false) (hdir : s.direct = true)
+    (hur : s.upReset = false) (hpass : s.pass = 0) (hheld : rsHeld s = false) (hlc : liveCount s.streams = 0)
+    (hresp : s.resp.isSome = true) (hpt : s.perTry = false) (hgt : s.global = false) (hrst : s.respStarted = false)
+    (hph : s.phase ≠ .UpFilter)
+    (h27 : s.urr = true → s.upReset = true ∨ (s.resp.isSome = true ∧ liveCount s.streams = 0)) :
+    Inv c ar aq (finishPhase c s) := by
+  rw [finishPhase_eq, processError_spec]
+  simp only [hcl, hur, Bool.false_eq_true, if_false]
+  unfold peTail
+  by_cases hd : s.downReset = true
+  · rw [if_pos hd]
+    exact tail_down c ar aq s b hcl (fun _ => hlc)
+  · rw [if_neg hd, if_pos hdir]
+    simp only []
+    by_cases how : c.oneway = true
+    · rw [if_pos how]
+      exact tail_oneway c ar aq s b hrun hcl how h3 h6 hpd hsr hpass hrst none (Or.inr ⟨rfl, hheld⟩) h27
+    · rw [if_neg how, if_pos hph]
+      simp only [Bool.not_eq_true] at how
+      exact tail_direct c ar aq s b hrun hcl how h3 h6 hpd hsr hpass hheld hlc hresp hur hpt hgt hrst
+
 /-- the end of a phase whose body kept the invariant (and is not the one-way clean phase) -/
 theorem finish_inv (c : Cfg) (ar aq : Nat) (s : S) (h : Inv c ar aq s) (hrun : s.running = true)
     (hph : s.phase = .Oneway → c.oneway = false)
